@@ -298,7 +298,7 @@ fn check_struct(decls: &[Decl], s: &StructD, o: &OType, out: &mut Vec<Finding>) 
             } else {
                 s.fields[..*i].iter().rev().find(|p| p.id.is_some() || p.hashid)
             };
-            if culprit.map(field_is_split).unwrap_or(false) {
+            if culprit.map(field_is_split).unwrap_or(false) || (struct_is_split(s) && s.ext.is_some()) {
                 sigs.push(split_finding(&s.ident, format!("member {fname:?} must have id {e}, published {id}")));
                 continue;
             }
@@ -461,7 +461,7 @@ fn check_union(decls: &[Decl], u: &UnionD, o: &OType, out: &mut Vec<Finding>) {
                 if collides {
                     out.push(finding(
                         IMPLICIT_LABEL_SIG,
-                        format!("{}::{}: default variant without case published with labels {:?}, which belong to another variant", u.ident, v.ident, got),
+                        format!("{}::{}: variant {} has no case (README: its label defaults to the 0-based variant index {}), it is published with labels {:?}, which another variant declares", u.ident, v.ident, idx, idx, got),
                     ));
                 }
             } else if !(got == vec![idx as i64] || got == vec![idx as i64 + 1]) || collides {
